@@ -519,33 +519,6 @@ impl DbInner {
 							Operation::InsertTree(..) => {
 								let (root_data, node_values) = column.claim_tree_values(&change)?;
 
-								let trees = self.trees.read();
-								if let Some(column_trees) = trees.get(&col) {
-									for (hash, count) in &column_trees.to_dereference {
-										assert!(*count > 0);
-
-										// Check if TreeReader is active for this tree
-										let mut tree_active = false;
-										if let Some(reader) = column_trees.readers.get(hash) {
-											let reader = reader.upgrade();
-											if let Some(reader) = reader {
-												if reader.is_locked() {
-													tree_active = true;
-												}
-											}
-										}
-										if tree_active {
-											commit
-												.indexed
-												.entry(col)
-												.or_insert_with(|| IndexedChangeSet::new(col))
-												.used_trees
-												.insert(*hash);
-										}
-									}
-								}
-								drop(trees);
-
 								let root_operation = Operation::Set(change.key(), root_data);
 								commit
 									.indexed
@@ -631,7 +604,7 @@ impl DbInner {
 		self.commit_raw(commit)
 	}
 
-	fn commit_raw(&self, commit: CommitChangeSet) -> Result<()> {
+	fn commit_raw(&self, mut commit: CommitChangeSet) -> Result<()> {
 		let mut queue = self.commit_queue.lock();
 
 		#[cfg(any(test, feature = "instrumentation"))]
@@ -660,6 +633,31 @@ impl DbInner {
 		}
 		for iterset in commit.btree_indexed.values() {
 			iterset.validate(&self.options)?;
+		}
+
+		// Mark the trees whose nodes a new tree of this commit may share: their removal has to wait
+		// for this commit. Done with the queue locked: a removal that is counted by now is seen
+		// here, a later one is queued behind this commit.
+		for (col, indexed) in commit.indexed.iter_mut() {
+			if !indexed.node_changes.iter().any(|c| !matches!(c, NodeChange::DereferenceChildren(..))) {
+				continue
+			}
+			let trees = self.trees.read();
+			if let Some(column_trees) = trees.get(col) {
+				for (hash, count) in &column_trees.to_dereference {
+					assert!(*count > 0);
+
+					// Check if TreeReader is active for this tree
+					let tree_active = column_trees
+						.readers
+						.get(hash)
+						.and_then(|reader| reader.upgrade())
+						.map_or(false, |reader| reader.is_locked());
+					if tree_active {
+						indexed.used_trees.insert(*hash);
+					}
+				}
+			}
 		}
 
 		let mut overlay = self.commit_overlay.write();
